@@ -880,10 +880,30 @@ class SxBytes:
         parts = [_byte_bv(b) for b in s.bs]
         return z3.Concat(*parts) if len(parts) > 1 else parts[0]
 
-    def startswith(s, p):
+    def startswith(s, p, *a):
+        if a:
+            raise Unsupported("startswith with start/end positions")
+        if isinstance(p, tuple):
+            r = False
+            for q in p:
+                x = s.startswith(q)
+                r = x if r is False else (r if x is False else (True if (x is True or r is True) else (r | x)))
+            return r
+        if len(p) > len(s):
+            return False
         return s[:len(p)] == p
 
-    def endswith(s, p):
+    def endswith(s, p, *a):
+        if a:
+            raise Unsupported("endswith with start/end positions")
+        if isinstance(p, tuple):
+            r = False
+            for q in p:
+                x = s.endswith(q)
+                r = x if r is False else (r if x is False else (True if (x is True or r is True) else (r | x)))
+            return r
+        if len(p) > len(s):
+            return False
         return s[len(s) - len(p):] == p if len(p) else True
 
     def _strip_set(s, chars):
@@ -1754,10 +1774,30 @@ class SxStr:
                 return i
         return -1
 
-    def startswith(s, p):
+    def startswith(s, p, *a):
+        if a:
+            raise Unsupported("startswith with start/end positions")
+        if isinstance(p, tuple):
+            r = False
+            for q in p:
+                x = s.startswith(q)
+                r = x if r is False else (r if x is False else (True if (x is True or r is True) else (r | x)))
+            return r
+        if len(p) > len(s):
+            return False
         return s[:len(p)] == p
 
-    def endswith(s, p):
+    def endswith(s, p, *a):
+        if a:
+            raise Unsupported("endswith with start/end positions")
+        if isinstance(p, tuple):
+            r = False
+            for q in p:
+                x = s.endswith(q)
+                r = x if r is False else (r if x is False else (True if (x is True or r is True) else (r | x)))
+            return r
+        if len(p) > len(s):
+            return False
         return s[len(s) - len(p):] == p if len(p) else True
 
     def join(s, parts):
